@@ -924,3 +924,291 @@ Proof.
   - intros h s' H. split; [eapply starter_progress; eauto|].
     destruct (starters s h); simpl; lia.
 Qed.
+
+(* ---- close-free scripts: no exception at all, every call is answered ----------------------- *)
+Definition op_of_pc (p : pc) : op :=
+  match p with
+  | PAcq | PAcqW | PTestH | PRet1 | PHas | PRet2 | PMk | PStart | PRel | PRelExc _ => Prepare
+  | KTry | KGet | KExc | KPass | KSend | KClose | KDel => Close
+  | _ => Call
+  end.
+
+Definition need_pc (p : pc) : bool :=
+  match p with RRel | CSend | CRecv | CIsOk | CRet => true | _ => false end.
+Definition recv_pc (p : pc) : bool := match p with CRecv => true | _ => false end.
+
+Fixpoint cnt (f : nat -> bool) (n : nat) : nat :=
+  match n with 0 => 0 | S m => cnt f m + b2n (f m) end.
+
+Fixpoint calls (l : list op) : nat :=
+  match l with [] => 0 | Call :: r => S (calls r) | _ :: r => calls r end.
+
+Lemma cnt_ext f g n : (forall j, j < n -> f j = g j) -> cnt f n = cnt g n.
+Proof.
+  induction n as [|n IH]; intros H; simpl; [reflexivity|].
+  rewrite IH by (intros; apply H; lia). rewrite (H n) by lia. reflexivity.
+Qed.
+
+Lemma cnt_upd f g n i : i < n -> (forall j, j <> i -> g j = f j) ->
+  cnt g n + b2n (f i) = cnt f n + b2n (g i).
+Proof.
+  induction n as [|n IH]; intros Hi H; [lia|]. simpl.
+  destruct (Nat.eq_dec i n) as [->|Hne].
+  - rewrite (cnt_ext g f n) by (intros; apply H; lia). lia.
+  - rewrite (H n) by lia. assert (i < n) by lia. specialize (IH H0 H). lia.
+Qed.
+
+Lemma cnt_zero f n : (forall j, j < n -> f j = false) -> cnt f n = 0.
+Proof.
+  induction n as [|n IH]; intros H; simpl; [reflexivity|].
+  rewrite IH by (intros; apply H; lia). rewrite (H n) by lia. reflexivity.
+Qed.
+
+Lemma cnt_pos f n i : i < n -> f i = true -> 1 <= cnt f n.
+Proof.
+  induction n as [|n IH]; intros Hi H; [lia|]. simpl.
+  destruct (Nat.eq_dec i n) as [->|Hne]; [rewrite H; simpl; lia|].
+  assert (i < n) by lia. specialize (IH H0 H). lia.
+Qed.
+
+Lemma op_start a : op_of_pc (start_pc a) = a.
+Proof. destruct a; reflexivity. Qed.
+
+Definition nrecv (s : state) : nat := cnt (fun j => on recv_pc (clients s j)) (nclients s).
+
+Record CF (scripts : list (list op)) (s : state) : Prop := {
+  F_op : forall i a l, t_script (clients s i) = a :: l -> op_of_pc (t_pc (clients s i)) = a;
+  F_cf : forall i, ~ In Close (t_script (clients s i));
+  F_kg : forall k, conn (sh s) = Some k -> c_closed k = false /\ c_gotclose k = false;
+  F_nc : forall i, on need_pc (clients s i) = true -> conn (sh s) <> None;
+  F_pc : forall k, conn (sh s) = Some k -> c_pending k = nrecv s;
+  F_ex : forall i, t_exns (clients s i) = [];
+  F_an : forall i, t_answers (clients s i) + calls (t_script (clients s i)) = calls (nth i scripts []);
+  F_ef : epoch (sh s) = 0 /\ failed (sh s) = 0;
+  F_ac : forall i, 0 < t_answers (clients s i) -> conn (sh s) <> None
+}.
+
+Lemma init_cf scripts : (forall l, In l scripts -> ~ In Close l) -> CF scripts (init scripts).
+Proof.
+  intros Hcf. constructor; simpl.
+  - intros i a l H. unfold first_pc. rewrite H. apply op_start.
+  - intros i. destruct (nth_in_or_default i scripts []) as [H|H]; [apply Hcf, H|rewrite H; auto].
+  - discriminate.
+  - intros i. rewrite init_on by (repeat split). discriminate.
+  - discriminate.
+  - reflexivity.
+  - reflexivity.
+  - split; reflexivity.
+  - intros i H. inversion H.
+Qed.
+
+Section CloseFree.
+Variable c : cfg.
+Variable o : oracle.
+Variable scripts : list (list op).
+Hypothesis Hf3 : fix_f3 c = true.
+Hypothesis Hgood : good_oracle o.
+
+Arguments advance : simpl never.
+
+Ltac break_match H :=
+  repeat match type of H with
+  | context [match ?x with _ => _ end] => destruct x eqn:?
+  | context [if ?x then _ else _] => destruct x eqn:?
+  end.
+
+Lemma live_lt s i a l : Inv s -> t_script (clients s i) = a :: l -> i < nclients s.
+Proof.
+  intros HI H. destruct (Nat.lt_ge_cases i (nclients s)) as [X|X]; [exact X|].
+  rewrite (I_nc _ HI i X) in H. discriminate.
+Qed.
+
+Lemma nrecv_same s i t' g' n' st' :
+  on recv_pc t' = on recv_pc (clients s i) ->
+  nrecv {| sh := g'; nclients := nclients s; clients := upd (clients s) i t'; nstarters := n'; starters := st' |}
+  = nrecv s.
+Proof.
+  intros H. unfold nrecv; simpl. apply cnt_ext. intros j _. unfold upd.
+  destruct (Nat.eqb_spec j i) as [->|]; auto.
+Qed.
+
+Lemma nrecv_upd s i t' g' n' st' :
+  i < nclients s ->
+  nrecv {| sh := g'; nclients := nclients s; clients := upd (clients s) i t'; nstarters := n'; starters := st' |}
+  + b2n (on recv_pc (clients s i)) = nrecv s + b2n (on recv_pc t').
+Proof.
+  intros H. unfold nrecv; simpl.
+  pose proof (cnt_upd (fun j => on recv_pc (clients s j)) (fun j => on recv_pc (upd (clients s) i t' j))
+                      (nclients s) i H) as X. simpl in X. rewrite upd_same in X. apply X.
+  intros j Hne. rewrite upd_other by exact Hne. reflexivity.
+Qed.
+
+Lemma cstep_cf s i a l p g' st' n' out :
+  Inv s -> Clean s -> CF scripts s -> t_script (clients s i) = a :: l -> t_pc (clients s i) = p ->
+  cstep c o i (sh s) (starters s) (nstarters s) p = Some (g', st', n', out) ->
+  CF scripts {| sh := g'; nclients := nclients s;
+                clients := upd (clients s) i (advance (clients s i) out);
+                nstarters := n'; starters := st' |}.
+Proof.
+  intros HI [HC HS] HF Escr Epc Hs. destruct Hgood as [Gp Gc].
+  pose proof (live_lt _ _ _ _ HI Escr) as Hlt.
+  pose proof (HC i) as Hb. unfold on in Hb. rewrite Escr, Epc in Hb.
+  pose proof (I_cl _ HI i) as Hi. unfold cl_ok, on, joining in Hi. rewrite Escr, Epc in Hi.
+  pose proof (F_op _ _ HF i _ _ Escr) as Hop. rewrite Epc in Hop.
+  pose proof (F_cf _ _ HF i) as Hcf. rewrite Escr in Hcf.
+  pose proof (F_nc _ _ HF i) as Hnc. unfold on in Hnc. rewrite Escr, Epc in Hnc.
+  destruct p; simpl in Hs, Hb, Hi, Hop, Hnc; try discriminate Hb;
+    try (exfalso; apply Hcf; left; symmetry; exact Hop);
+    unfold keep, do_popen, do_connect in Hs; rewrite ?Hf3, ?Gp in Hs;
+    try match goal with
+        | E : _ = RConnect |- _ => pose proof (Gc (attempts (sh s))); destruct (o_conn o (attempts (sh s))) eqn:Hoc; [| |congruence]
+        end;
+    break_match Hs; inversion Hs; subst g' st' n' out; clear Hs;
+    repeat match goal with
+    | H : is_some _ = true |- _ => apply is_some_true in H; destruct H as [? H]
+    | H : is_some _ = false |- _ => apply is_some_false in H
+    end.
+  all: try solve [exfalso; destruct Hi as (A & B & C & D & E & F);
+                  destruct (D eq_refl) as (h' & H1 & H2); congruence].
+  (* exceptions at send/recv are excluded: the connection exists, is open, and a reply is pending *)
+  all: try solve [exfalso; apply Hnc; first [reflexivity|assumption]].
+  all: try solve [exfalso; match goal with H : conn _ = Some ?k0 |- _ =>
+                    destruct (F_kg _ _ HF _ H) as [X1 X2]; congruence end].
+  all: try solve [exfalso; match goal with H : conn _ = Some ?k0 |- _ =>
+                    pose proof (F_pc _ _ HF _ H) as X;
+                    assert (1 <= nrecv s) by (apply (cnt_pos _ _ i Hlt); unfold on; rewrite Escr, Epc; reflexivity);
+                    lia end].
+  all: constructor; simpl.
+  all: try exact (F_ef _ _ HF).
+  (* F_op *)
+  all: try solve [intros j a' l'; unfold upd; destruct (Nat.eqb_spec j i) as [->|Hne]; [|apply (F_op _ _ HF)];
+                  rewrite ?advance_done, ?advance_answer, ?advance_raise;
+                  first [ unfold advance; simpl; rewrite Escr; intros X; injection X as <- _; simpl; congruence
+                        | unfold next_op; simpl; rewrite Escr; simpl; intros X; unfold first_pc; rewrite X; apply op_start ]].
+  (* F_cf *)
+  all: try solve [intros j; unfold upd; destruct (Nat.eqb_spec j i) as [->|Hne]; [|apply (F_cf _ _ HF)];
+                  rewrite ?advance_done, ?advance_answer, ?advance_raise; unfold advance, next_op; simpl;
+                  rewrite Escr; simpl; intros X; apply Hcf; first [exact X | right; exact X]].
+  (* F_ex *)
+  all: try solve [intros j; unfold upd; destruct (Nat.eqb_spec j i) as [->|Hne]; [|apply (F_ex _ _ HF)];
+                  rewrite ?advance_done, ?advance_answer; unfold advance, next_op; simpl; apply (F_ex _ _ HF)].
+  (* F_an *)
+  all: try solve [intros j; unfold upd; destruct (Nat.eqb_spec j i) as [->|Hne]; [|apply (F_an _ _ HF)];
+                  rewrite ?advance_done, ?advance_answer; unfold advance, next_op; simpl;
+                  pose proof (F_an _ _ HF i) as X; rewrite Escr in X; subst a; simpl in X |- *; rewrite ?Escr; simpl; lia].
+  (* F_kg *)
+  all: try solve [intros k Hk; apply (F_kg _ _ HF); exact Hk].
+  all: try solve [intros k Hk; injection Hk as <-; simpl;
+                  match goal with
+                  | H : conn _ = Some ?k0 |- _ => destruct (F_kg _ _ HF _ H) as [X1 X2]; split; congruence
+                  | _ => split; reflexivity
+                  end].
+  (* F_nc *)
+  all: try solve [intros j; unfold upd; destruct (Nat.eqb_spec j i) as [->|Hne];
+                  [ rewrite ?advance_done, ?advance_answer;
+                    first [ rewrite (on_goto _ _ _ _ _ Escr); simpl; intros X; try discriminate X; simpl;
+                            first [congruence | apply Hnc; reflexivity]
+                          | rewrite on_next by (repeat split); discriminate ]
+                  | intros X; pose proof (F_nc _ _ HF j X); simpl; congruence ]].
+  (* F_ac *)
+  all: try solve [intros j; unfold upd; destruct (Nat.eqb_spec j i) as [->|Hne];
+                  [ rewrite ?advance_done, ?advance_answer; unfold advance, next_op; simpl; intros X;
+                    first [ pose proof (F_ac _ _ HF i X); simpl; congruence | simpl; apply Hnc; reflexivity ]
+                  | intros X; pose proof (F_ac _ _ HF j X); simpl; congruence ]].
+  (* F_pc: threads that neither enter nor leave the recv line *)
+  all: try solve [intros k Hk; simpl in Hk; rewrite nrecv_same;
+                  [ apply (F_pc _ _ HF); exact Hk
+                  | rewrite ?advance_done, ?advance_answer;
+                    first [rewrite (on_goto _ _ _ _ _ Escr) | rewrite on_next by (repeat split)];
+                    unfold on; rewrite Escr, Epc; reflexivity ]].
+  - (* _run: Client succeeded - nobody can be waiting for a reply on a connection that did not exist *)
+    intros k Hk. injection Hk as <-. simpl.
+    rewrite nrecv_same by (rewrite (on_goto _ _ _ _ _ Escr); unfold on; rewrite Escr, Epc; reflexivity).
+    symmetry. apply cnt_zero. intros j _.
+    destruct (on recv_pc (clients s j)) eqn:X; [|reflexivity]. exfalso.
+    apply (F_nc _ _ HF j); [|apply Hi; reflexivity].
+    revert X. apply on_imp. intros p. destruct p; simpl; auto.
+  - (* send: one more reply outstanding, one more thread on the recv line *)
+    intros k Hk. injection Hk as <-. simpl.
+    match goal with H : conn _ = Some ?k0 |- _ => pose proof (F_pc _ _ HF _ H) as X end.
+    pose proof (nrecv_upd s i (advance (clients s i) (Goto CRecv))
+                  (set_conn (Some {| c_closed := false; c_gotclose := false;
+                                     c_pending := S (c_pending c0) |}) (sh s))
+                  (nstarters s) (starters s) Hlt) as Y.
+    rewrite (on_goto _ _ _ _ _ Escr) in Y. unfold on in Y at 1. rewrite Escr, Epc in Y. simpl in Y. lia.
+  - (* recv: one reply consumed, the thread leaves the recv line *)
+    intros k Hk. injection Hk as <-. simpl.
+    match goal with H : conn _ = Some ?k0 |- _ => pose proof (F_pc _ _ HF _ H) as X end.
+    pose proof (nrecv_upd s i (advance (clients s i) (Goto CIsOk))
+                  (set_conn (Some {| c_closed := false; c_gotclose := c_gotclose c0;
+                                     c_pending := n |}) (sh s))
+                  (nstarters s) (starters s) Hlt) as Y.
+    rewrite (on_goto _ _ _ _ _ Escr) in Y. unfold on in Y at 1. rewrite Escr, Epc in Y. simpl in Y. lia.
+Qed.
+
+Lemma sstep_cf s h g' x' :
+  Inv s -> CF scripts s -> sstep o (sh s) (starters s h) = Some (g', x') ->
+  CF scripts {| sh := g'; nclients := nclients s; clients := clients s;
+                nstarters := nstarters s; starters := upd (starters s) h x' |}.
+Proof.
+  intros HI HF Hs. pose proof (I_st _ HI h) as Hh.
+  assert (Hz : conn (sh s) = None -> nrecv s = 0).
+  { intros Hk. apply cnt_zero. intros j _.
+    destruct (on recv_pc (clients s j)) eqn:X; [|reflexivity]. exfalso.
+    apply (F_nc _ _ HF j); [|exact Hk]. revert X. apply on_imp. intros p. destruct p; simpl; auto. }
+  destruct (starters s h); simpl in Hs, Hh; try discriminate; unfold do_popen, do_connect in Hs;
+    try destruct (o_popen o (popens (sh s)));
+    try (pose proof (proj2 Hgood (attempts (sh s))); destruct (o_conn o (attempts (sh s))); [| |congruence]);
+    injection Hs as <- <-.
+  all: constructor; simpl;
+    try exact (F_op _ _ HF); try exact (F_cf _ _ HF); try exact (F_ex _ _ HF); try exact (F_an _ _ HF);
+    try exact (F_kg _ _ HF); try exact (F_nc _ _ HF); try exact (F_pc _ _ HF); try exact (F_ef _ _ HF); try exact (F_ac _ _ HF).
+  all: try solve [intros k Hk; injection Hk as <-; simpl; auto].
+  all: try solve [intros j X; discriminate].
+  all: try solve [intros j X; pose proof (F_ac _ _ HF j X); discriminate].
+  all: try solve [intros k Hk; injection Hk as <-; simpl; unfold nrecv; simpl; symmetry; apply Hz; tauto].
+Qed.
+
+Lemma step_cf s t s' : Inv s -> Clean s -> CF scripts s -> step c o s t = Some s' -> CF scripts s'.
+Proof.
+  intros HI HC HF H. destruct t as [i|h]; simpl in H.
+  - destruct (t_script (clients s i)) as [|a l] eqn:Escr; [discriminate|].
+    destruct (cstep c o i (sh s) (starters s) (nstarters s) (t_pc (clients s i)))
+      as [[[[g' st'] n'] out]|] eqn:Ec; [|discriminate].
+    injection H as <-. eapply cstep_cf; eauto.
+  - destruct (sstep o (sh s) (starters s h)) as [[g' x']|] eqn:Es; [|discriminate].
+    injection H as <-. eapply sstep_cf; eauto.
+Qed.
+
+Lemma run_cf sched : forall s, Inv s -> Clean s -> CF scripts s -> CF scripts (run c o sched s).
+Proof.
+  unfold run. induction sched as [|t r IH]; intros s HI HC HF; simpl; [exact HF|].
+  unfold step_or_stay at 2. destruct (step c o s t) eqn:E.
+  - apply IH; [eapply step_inv; eauto | eapply step_clean; eauto | eapply step_cf; eauto].
+  - apply IH; assumption.
+Qed.
+
+(* Close-free scripts (background prepare() requests and calls from any number of threads),
+   repaired run(), launches that succeed: under every schedule no operation ever ends with an
+   exception, at most one server is launched, and each thread has received exactly as many
+   replies as calls it has completed - all of them once its script has run to its end. *)
+Theorem closefree_all_answered :
+  (forall l, In l scripts -> ~ In Close l) ->
+  forall sched, let s := run c o sched (init scripts) in
+  (forall i, t_exns (clients s i) = []) /\
+  (forall i, t_answers (clients s i) + calls (t_script (clients s i)) = calls (nth i scripts [])) /\
+  (forall i, t_script (clients s i) = [] -> t_answers (clients s i) = calls (nth i scripts [])) /\
+  launches (sh s) <= 1 /\
+  ((exists i, 0 < t_answers (clients s i)) -> launches (sh s) = 1).
+Proof.
+  intros Hcf sched s.
+  assert (HI : Inv s) by apply reachable_inv.
+  assert (HF : CF scripts s).
+  { apply run_cf; [apply init_inv|apply init_clean|apply init_cf, Hcf]. }
+  split; [exact (F_ex _ _ HF)|]. split; [exact (F_an _ _ HF)|].
+  split. { intros i H. pose proof (F_an _ _ HF i) as X. rewrite H in X. simpl in X. lia. }
+  destruct (F_ef _ _ HF) as [E0 E1]. destruct (launches_exact s HI) as [A B].
+  rewrite E0, E1 in A. split; [lia|]. intros [i Hi]. pose proof (F_ac _ _ HF i Hi) as Hk.
+  destruct (conn (sh s)); [simpl in *; lia|contradiction].
+Qed.
+End CloseFree.
